@@ -391,6 +391,10 @@ func (e *Engine) applyContractFr(fr *Frame, st *State, ct *Contract, fn *ssa.Fun
 			e.errorf("%s: evaluating ensures of %s (%s): %v", fr.fn, ct.Key, en.Src, err)
 			return
 		}
+		if v.T == "false" && ct.Assumed {
+			// the callee never returns (e.g. klog.Exitf -> os.Exit): the path ends here, nothing is explored after it
+			return
+		}
 		st.assume(v.T)
 	}
 	// fmt.Errorf with a constant format that has no %w returns a plain error: status.Code of it is Unknown
